@@ -270,8 +270,9 @@ func TestCheck(t *testing.T) {
 				addMu.Lock()
 				add(cfg, st, tr, memStopped.Load() > stopsBefore)
 				addMu.Unlock()
+				n := st.Executions
 				tr, st = nil, nil
-				afterConfig()
+				afterConfig(n)
 			}
 		}
 		// socket configurations whose executions contain long real-time waits (write timeouts of a stopped receiver, held
